@@ -431,3 +431,59 @@ func VerifC12_PercentBudgetFollowsWorkloadReplicas() {
 		verifrt.Assert(labelled == nn, "C12.percent.everyNewPodLabelledWhenFewerThanTheBudget")
 	}
 }
+
+// VerifC12_OrderedFilterPassesAreIdempotent: the labelling pass of an ordered (StatefulSet) rollback-in-batches runs
+// on every reconcile.  With the ordered filter in front of the patcher, a second pass over the pods as the first pass
+// left them labels nothing more, and the pods carrying (this rollout, batch 1) never exceed what batch 1 plans —
+// however many unlabelled no-need-update pods below the partition are still around to be picked.
+func VerifC12_OrderedFilterPassesAreIdempotent() {
+	n := verifrt.Bound("pods", 4, 5)
+	var list []*corev1.Pod
+	for i := 0; i < n; i++ {
+		p := &corev1.Pod{ObjectMeta: metav1.ObjectMeta{Namespace: "ns", Name: "sts-" + strconv.Itoa(i), Labels: map[string]string{apps.ControllerRevisionHashLabelKey: c12Revision}}}
+		list = append(list, p)
+	}
+	partition := verifrt.Concrete(verifrt.IntRange("partition", 0, n))
+	planned := verifrt.Concrete(verifrt.IntRange("planned", 0, n))
+	batches := []v1beta1.ReleaseBatch{{CanaryReplicas: intstr.FromInt(planned)}}
+	noNeed := int32(partition)
+	mkCtx := func() *batchcontext.BatchContext {
+		return &batchcontext.BatchContext{RolloutID: c12RolloutID, UpdateRevision: c12Revision, Replicas: int32(n), CurrentBatch: 0, Pods: list,
+			DesiredPartition: intstr.FromInt(partition), PlannedUpdatedReplicas: int32(planned), NoNeedUpdatedReplicas: &noNeed,
+			FilterFunc: FilterPodsForOrderedUpdate}
+	}
+	labelled := func() int {
+		c := 0
+		for _, p := range list {
+			if p.Labels[v1beta1.RolloutIDLabel] == c12RolloutID && p.Labels[v1beta1.RolloutBatchIDLabel] == "1" {
+				c++
+			}
+		}
+		return c
+	}
+	passes := verifrt.Bound("passes", 3, 4)
+	for pass := 1; pass <= passes; pass++ {
+		cli := &symclient.Client{}
+		r := &realPatcher{Client: cli, logKey: klog.ObjectRef{Namespace: "ns", Name: "br"}, batches: batches}
+		err := r.PatchPodBatchLabel(mkCtx())
+		verifrt.Assert(err == nil, "C12.ordered.pass.noError")
+		wrote := 0
+		for _, w := range cli.Log {
+			id, has := verifrt.JSONGet(w.Body, "metadata", "labels", v1beta1.RolloutBatchIDLabel)
+			if !has {
+				continue
+			}
+			wrote++
+			for _, p := range list {
+				if p.Name == w.Obj.GetName() {
+					p.Labels[v1beta1.RolloutIDLabel] = c12RolloutID
+					p.Labels[v1beta1.RolloutBatchIDLabel] = id
+				}
+			}
+		}
+		verifrt.Assert(labelled() <= planned, "C12.ordered.batchCountNeverAbovePlan")
+		if pass > 1 {
+			verifrt.Assert(wrote == 0, "C12.ordered.laterPassesLabelNothingMore")
+		}
+	}
+}
